@@ -915,7 +915,7 @@ func c14runOp(v *VmValue, g *c14graph, in *c14info, op string) (class string, ke
 			// round trip
 			feat := in.kinds
 			if in.shared {
-				feat += "+shared"
+				feat = "shared-ref"
 			}
 			if in.maxDepth >= MAX_STRUCT_DEPTH {
 				feat = "depth=" + strconv.Itoa(in.maxDepth)
@@ -923,7 +923,7 @@ func c14runOp(v *VmValue, g *c14graph, in *c14info, op string) (class string, ke
 				feat = "size-limit"
 			}
 			if err != nil {
-				return "roundtrip:failed", "roundtrip:serialize-error:" + feat,
+				return "roundtrip:failed", "roundtrip:serialize-error:" + c14errClass(err) + ":" + feat,
 					fmt.Sprintf("Serialize of the acyclic value %s (depth %d, %d bytes) failed: %v", g, in.maxDepth, in.size, err)
 			}
 			var back VmValue
@@ -954,6 +954,9 @@ func c14runOp(v *VmValue, g *c14graph, in *c14info, op string) (class string, ke
 			}
 			if in.size >= constants.MAX_BYTEARRAY_SIZE-8 {
 				return "roundtrip:ok:at-size-limit", "", ""
+			}
+			if in.shared {
+				return "roundtrip:ok:" + in.kinds + "+shared", "", ""
 			}
 			return "roundtrip:ok:" + feat, "", ""
 		}
